@@ -56,6 +56,10 @@ CHECKS = {
   "complete enumeration of the finite misuse matrix: every exported Point operation x every Point-typed input position x ways of producing a zero value x other-argument values; recover() as oracle",
   "Every input position of every operation (incl. each index of the points slice for n=1..3) is made zero-valued in five different ways with all other inputs valid -> must panic; receiver-only zero values must not panic; all (len scalars, len points) in {0..3}^2 panic iff different. The operation table is cross-checked against reflection.",
   "recover() observes panics; the operation table lists today's exported methods (new ones are reported as uncovered)", "3 C15"),
+ "C18": (MC, "sched",
+  "stateless model checking of the implementation: depth-first exploration of all thread schedules up to a preemption bound under a hand-written controlled scheduler, with vector-clock happens-before race detection on every explored schedule; sources instrumented at check time and injected with go build -overlay",
+  "Five closed harnesses (2-3 threads, cold start restored from a generated snapshot of all package-level variables) are run under every schedule with at most 2 (quick) / 3-4 (thorough) preemptions: simultaneous first use of either or both lazily built tables, cold and warm paths interleaved, shared read-only arguments. sync.Once is replaced by a shim following the standard library's structure whose every step is a scheduling point; mentions of mutable package-level variables (directly or through local aliases, classified by an interprocedural may-write analysis recomputed from the tree) are scheduling points and race-checked. On every schedule: results equal the sequential ones, no race, no deadlock, each table written exactly as often as sequentially, final package state equal. A free-running -race pass in cold processes is a supporting (sampling) extra.",
+  "sequential consistency + happens-before approximates the Go memory model; accesses through pointers that escape the alias analysis are covered by the value oracle and the sampled -race pass only; 2-3 threads", "3 C18"),
  "C19": (MC, "opseq(replay)",
   "stateless exhaustive exploration of all call/scribble/operation sequences up to a depth bound, each replayed from fresh values in isolated processes; invariants (memory disjointness, unchanged sources and earlier results, constant probe battery) evaluated after every step",
   "All sequences to depth 3 (quick) / 4 (thorough) over 20 events: 10 constructor/accessor calls, 6 scribbles over previously returned values (exported setters, zeroing, raw bytes up to cap), 4 heavy operations. After every step: sources bit-identical, earlier results unchanged, new results equal the model and occupy fresh memory, and a 70-call probe battery on fixed arguments (receivers with different histories included) is byte-identical. Sharded over 16 processes so that package state is never shared between explorers.",
@@ -74,7 +78,6 @@ CHECKS = {
 
 NOT_YET = {
  "C03": "check under construction (leakage-trace self-composition); not claimed yet",
- "C18": "check under construction (controlled scheduler); not claimed yet",
 }
 
 def main():
@@ -110,6 +113,7 @@ def main():
             {"name": "ref", "path": "harness/ref", "serves_properties": ids, "kind_free_text": "math/big reference model of GF(p), Z/l and the curve, self-tested at start"},
             {"name": "alpha", "path": "harness/alpha", "serves_properties": ids, "kind_free_text": "structured finite alphabets (boundary values, limb corner lattices, torsion/mixed points, representations)"},
             {"name": "core", "path": "harness/core", "serves_properties": ids, "kind_free_text": "exhaustive parallel enumerator, explicit-state BFS register machine (opseq), replay files, 5x reproducibility guard, evidence"},
+            {"name": "sched", "path": "harness/cmd/schedcheck + harness/_virt/vsched,vsync + harness/cmd/instr", "serves_properties": ["C18"], "kind_free_text": "controlled cooperative scheduler, iterative preemption-bounded DFS over schedules, vector-clock race check, cold-state snapshot/restore, source instrumenter"},
             {"name": "limbmodel", "path": "harness/limbmodel", "serves_properties": ["C09", "C10", "C20"], "kind_free_text": "abstract limb-bound transition system iterated to a fixpoint; conformance by replaying corner vectors on the real code"},
         ],
         "checks": checks,
